@@ -10,7 +10,7 @@ NOTES = {
  "C11-2": "the de-duplication map moves inside the per-ID loop, so the invariant [pairs-recorded] of the outer loop names a variable that is not in scope there any more (contract error => VIOLATION without input); the hand-written variant `selftest/mustfail/C11_duplicate_pairs_kept.diff` (duplicates appended instead of skipped) fails the invariants [current-new] / [current-distinct] semantically",
  "C17-2": "caught by the clause [no-error-when-valid] that was added after the first C17 version (which had only the error direction)",
  "C04-3": "MISSED: the eligibility filter treats IDs whose vertical zoom equals the target as 'coarser' (returned unchanged); like C04-2 this is only visible through the density rule of the merge, which is not under contract (aliased unit-cell maps)",
- "C11-3": "MISSED: `break` instead of `continue` when a pair was already reported drops the remaining vertical indices of that quadkey; the list-level contract has duplicate-freedom and group parameters but no coverage clause (every pair of every input is reported), so nothing fails",
+ "C11-3": "MISSED: `break` instead of `continue` when a pair was already reported drops the remaining vertical indices of that quadkey; the list-level contract has duplicate-freedom and group parameters but no coverage clause.  Coverage invariants for the pair loops caught it but destabilised unrelated obligations of the function and were withdrawn (DESIGN 7.1)",
  "C09-3": "fast path with a wrong index in the zoom change: the exact set-level contract ([covers]/[sound] invariants) and the single-zoom-out case fail, under C09 and under C03",
  "C17-3": "per-call cache keyed without the height range: detected through the loop invariant of the changed loop and a string-model bound, i.e. as *undecided* (no semantic clause about the reverse direction exists: convertBitToVerticalID is assumed total)",
  "C20-3": "wrong operand in one entry of Matrix3.Mul: postcondition [row2] of the new spatial contracts fails, with the solver's model (two matrices) replayed on the changed code",
